@@ -375,6 +375,9 @@ func (c *Client) Auth(a sasl.Client) error {
 	if err != nil {
 		return err
 	}
+	if err := validateLine(mech); err != nil {
+		return err
+	}
 	var resp64 []byte
 	if len(resp) > 0 {
 		resp64 = make([]byte, encoding.EncodedLen(len(resp)))
@@ -382,7 +385,7 @@ func (c *Client) Auth(a sasl.Client) error {
 	} else if resp != nil {
 		resp64 = []byte{'='}
 	}
-	code, msg64, err := c.cmd(0, strings.TrimSpace(fmt.Sprintf("AUTH %s %s", mech, resp64)))
+	code, msg64, err := c.cmd(0, "%s", strings.TrimSpace(fmt.Sprintf("AUTH %s %s", mech, resp64)))
 	for err == nil {
 		var msg []byte
 		switch code {
